@@ -253,24 +253,27 @@ def Row.bareOpens (r : Row) : List String := r.2.2.1
 def Row.forCalls (r : Row) : List String := r.2.2.2.1
 def Row.closeCalls (r : Row) : List String := r.2.2.2.2
 
-/-- the meaning of the context expressions that occur in the source.  The translator prints every variable as
-    what it is — `<param>` (supplied by the caller of the function) or `<local>` (bound inside it) — so that
-    renaming a variable does not change the table, while `closing(<param>)` (closing what the caller supplied)
-    stays distinguishable from `closing(<local>)`. -/
+/-- the meaning of the context expressions that occur in the source.  The translator prints them in a canonical
+    form: callee names, and for every positional argument only what it is — `<param>` (supplied by the caller of
+    the function), `<local>` (bound inside it), a nested call or `_`; keyword arguments, literal arguments (file
+    modes) and the tests of conditional expressions are dropped, the alternatives of a conditional are sorted
+    (`either(…)`), and a module-private helper that only returns such expressions is replaced by what it returns.
+    So renaming a variable, adding `encoding=…` or moving the conditional into a helper does not change the table,
+    while `closing(<param>)` (closing what the caller supplied) stays distinguishable from `closing(<local>)`.
+    Which alternative of `either` is taken when (path ↦ open, stream ↦ nullcontext) is not in the table: it is
+    checked by the correspondence run. -/
 inductive CtxSem
-  | openIfPath       -- `open(x) if <x is a path> else nullcontext(x)` (either order)
-  | closingWorkbook  -- `closing(openpyxl.load_workbook(path, read_only=True, …))`
+  | openIfPath       -- `either(nullcontext(<param>), open(<param>))`: open for a path, nullcontext for a stream
+  | closingWorkbook  -- `closing(openpyxl.load_workbook(<param>))`
   | closingRows      -- `closing(<local>)` in read_excel: the lazy row iterator handed out by read_sheets
-  | openPath         -- `open(<param>, 'wb')` (write_excel_openpyxl, only reached for a path-like target)
+  | openPath         -- `open(<param>)` (write_excel_openpyxl, only reached for a path-like target)
   deriving DecidableEq, Repr
 
 def interpCtx (e : String) : Option CtxSem :=
-  if e = "nullcontext(<param>) if <local> else open(<param>)" then some .openIfPath
-  else if e = "open(<param>, 'w') if isinstance(<param>, (str, os.PathLike)) else nullcontext(<param>)" then some .openIfPath
-  else if e = "closing(openpyxl.load_workbook(<param>, read_only=True, data_only=True, keep_links=False))" then
-    some .closingWorkbook
+  if e = "either(nullcontext(<param>), open(<param>))" then some .openIfPath
+  else if e = "closing(openpyxl.load_workbook(<param>))" then some .closingWorkbook
   else if e = "closing(<local>)" then some .closingRows
-  else if e = "open(<param>, 'wb')" then some .openPath
+  else if e = "open(<param>)" then some .openPath
   else none
 
 inductive Frame
@@ -424,7 +427,7 @@ def saveShape (tbl : Table) : SaveShape :=
   | some r =>
     if !r.bareOpens.isEmpty || !r.closeCalls.isEmpty then .other
     else if r.points == [("call _append_table_to_openpyxl_worksheet", []), ("call <local>.save", []),
-        ("call <local>.write", ["open(<param>, 'wb')"]), ("call <local>.save", [])] then .buffered
+        ("call <local>.write", ["open(<param>)"]), ("call <local>.save", [])] then .buffered
     else if r.points == [("call _append_table_to_openpyxl_worksheet", []), ("call <local>.save", [])] then .direct
     else .other
   | none => .other
